@@ -645,6 +645,7 @@ class ThreadedView:
     def reach(self, starts, avoid_blocks=(), avoid_edges=()):
         avoid_blocks = set(avoid_blocks)
         avoid_edges = set(avoid_edges)
+        starts = [s for s in starts if s not in avoid_blocks]
         seen = set(starts)
         stack = list(starts)
         while stack:
@@ -834,3 +835,16 @@ def cmp_rx(a_rx, b_rx, rel, c=0):
     f1 = r'cmp\[\+ %s - %s %s %d\]' % (a_rx, b_rx, re.escape(rel), c)
     f2 = r'cmp\[\+ %s - %s %s %d\]' % (b_rx, a_rx, re.escape(flip), -c)
     return '^(?:%s|%s)$' % (f1, f2)
+
+
+def top_alternatives(e):
+    """Alternatives of an origin tree: phis (also below field / downcast / cast wrappers) are split, the wrappers re-applied."""
+    t = e[0]
+    if t == 'phi':
+        out = []
+        for a in e[1]:
+            out += top_alternatives(a)
+        return out
+    if t in ('field', 'downcast', 'cast', 'index'):
+        return [(t, a) + tuple(e[2:]) for a in top_alternatives(e[1])]
+    return [e]
